@@ -83,13 +83,16 @@ pub fn decrypt_private_key(encrypted_data: &str, password: &str) -> Result<Strin
     let encrypted_data = hex::decode(encrypted_data)
         .map_err(|_| Error::FailedToDecryptKey(String::from("Encrypted data is invalid")))?;
 
-    let salt: [u8; SALT_LENGTH] = encrypted_data[..SALT_LENGTH]
-        .try_into()
-        .map_err(|_| Error::FailedToDecryptKey(String::from("Could not find salt")))?;
+    // `get` rather than indexing: a damaged wallet file may hold fewer bytes than salt + nonce
+    let salt: [u8; SALT_LENGTH] = encrypted_data
+        .get(..SALT_LENGTH)
+        .and_then(|salt| salt.try_into().ok())
+        .ok_or_else(|| Error::FailedToDecryptKey(String::from("Could not find salt")))?;
 
-    let nonce: [u8; NONCE_LENGTH] = encrypted_data[SALT_LENGTH..SALT_LENGTH + NONCE_LENGTH]
-        .try_into()
-        .map_err(|_| Error::FailedToDecryptKey(String::from("Could not find nonce")))?;
+    let nonce: [u8; NONCE_LENGTH] = encrypted_data
+        .get(SALT_LENGTH..SALT_LENGTH + NONCE_LENGTH)
+        .and_then(|nonce| nonce.try_into().ok())
+        .ok_or_else(|| Error::FailedToDecryptKey(String::from("Could not find nonce")))?;
 
     let encrypted_private_key = &encrypted_data[SALT_LENGTH + NONCE_LENGTH..];
 
@@ -124,7 +127,9 @@ pub fn decrypt_private_key(encrypted_data: &str, password: &str) -> Result<Strin
         })?;
 
     // Create secret key from decrypted byte
-    Ok(String::from_utf8(decrypted_data.to_vec()).expect("not able to convert private key"))
+    String::from_utf8(decrypted_data.to_vec()).map_err(|_| {
+        Error::FailedToDecryptKey(String::from("Decrypted private key is not valid UTF-8"))
+    })
 }
 
 #[cfg(test)]
